@@ -77,7 +77,7 @@ def judge(cfg, idx, obs, stats=None):
     if obs["exc"] is not None or obs["hist"] is None:
         return []  # C11's business
     if obs.get("int_differs"):
-        return [(f"C12|{mk}|integer-typed-sample", f"{mk}: the same whole-number sample gives a different history when passed as an integer array")]
+        return [(f"C12|{mk}|integer-typed-sample", f"{mk}: the same sample gives a different history when it (or the bound u) is passed with an integer type")]
     g = s1.grid(cfg)
     xs = [g[i] for i in idx]
     refs = reference(cfg, xs, obs)
